@@ -74,7 +74,7 @@ fn build(ch: &mut Chooser, fmt: &str) -> Case {
             }
             b.sheets.push(sh);
         }
-        xlsx::write(&b, &xlsx::XEnc { target: if ch.flag("xlsx.relationship-targets-absolute") { xlsx::TargetMode::AbsoluteXl } else { xlsx::TargetMode::Relative }, sheet_subfolder: ch.flag("xlsx.sheet-parts-in-a-sub-folder"), odd_table_part_names: !tables.is_empty() && ch.flag("xlsx.table-parts-outside-xl/tables"), prefix: ch.flag("xlsx.prefix"), indent: ch.flag("xlsx.indented"), comments: ch.flag("xlsx.comments-between-elements"), extras: ch.flag("xlsx.optional-neighbours-of-sheetData"), rels_target_first: ch.flag("xlsx.rels-target-before-type"), ..Default::default() })
+        xlsx::write(&b, &xlsx::XEnc { lean_markup: ch.flag("xlsx.relationships-with-end-tags-and-optional-counts-omitted"), target: if ch.flag("xlsx.relationship-targets-absolute") { xlsx::TargetMode::AbsoluteXl } else { xlsx::TargetMode::Relative }, sheet_subfolder: ch.flag("xlsx.sheet-parts-in-a-sub-folder"), odd_table_part_names: !tables.is_empty() && ch.flag("xlsx.table-parts-outside-xl/tables"), prefix: ch.flag("xlsx.prefix"), indent: ch.flag("xlsx.indented"), comments: ch.flag("xlsx.comments-between-elements"), extras: ch.flag("xlsx.optional-neighbours-of-sheetData"), rels_target_first: ch.flag("xlsx.rels-target-before-type"), ..Default::default() })
     } else {
         let mut b = biff8::BBook::default();
         for (i, n) in sheets.iter().enumerate() {
@@ -251,7 +251,7 @@ pub fn check(rep: &Report) {
     rep.rule("workbooks = 1-2 sheets x 0-3 merged regions per sheet drawn in every order from {A1:B2, Z1:AA2, AZ9:BA10, the last two rows/columns of the sheet, a 1-row wide region} (xls: one or two MERGECELLS records) x (xlsx) 0-2 tables at 5 placements (inside / over the edge of / outside the used range, single column) x header rows 0/1 x totals rows 0/1 x explicit default counts x the other elements Excel writes into a table part (autoFilter, calculated column, tableStyleInfo, x14:table alt text in extLst) x table on either sheet x a second sheet without values x prefix; all choice vectors with <= d deviations; every API path of the statement; non-trivial = non-default; distinct by file bytes");
     rep.assume("tables always keep at least one data row; table name == displayName");
     let stats = Mutex::new(Stats::default());
-    let dev = if t { 6 } else { 5 };
+    let dev = if t { 6 } else { 4 };
     ["xlsx", "xls"].par_iter().for_each(|fmt| {
         crate::engine::crumb::set_job(&format!("C17 format={fmt}"));
         let mut st = Stats::default();
